@@ -35,6 +35,7 @@ def run(ctx):
     check_parsers_do_not_panic(ctx, f)
     ctx.rule("R-CHK", "every success path passes the required step")
     K.check_attr_values_unescaped(ctx, f)
+    K.check_element_slots_fresh(ctx, f, "R-SIB", "ca::", 5)
     ctx.rule("R-GRD", "success requires the guard literal")
     K.check_attr_ascii_after_unescape(ctx, f)
     K.check_scheme_tests_ignore_case(ctx, f)
